@@ -3,7 +3,7 @@
 and require the named rule to fire (or stay silent for behaviour-preserving refactors).
 
 usage: mutants.py [--only ID[,ID..]] [--prop Cxx] [--jobs N] [--suite]   (--suite also runs cargo test on mutants)
-Mutants live in mutants.json: {id, prop:[..], file, find, replace, expect:'fire'|'silent', key: substring}
+Mutants live in mutants.json: {id, prop:[..], file, find, replace, expect:'fire'|'silent', key: substring, base?: refactoring id applied first}
 """
 import json
 import os
@@ -21,6 +21,11 @@ def run_one(m, suite=False, src='/repo'):
     try:
         root = os.path.join(tmp, 'repo')
         subprocess.run(['rsync', '-a', '--exclude', 'target', '--exclude', '.git', '--exclude', 'SEED', src.rstrip('/') + '/', root + '/'], check=True)
+        if m.get('base'):
+            # a mutant of a behaviour-preserving refactoring (selftest/refactorings/<base>.diff): the accepted spelling, broken
+            pr = subprocess.run(['patch', '-p1', '-s', '-i', os.path.join(HERE, 'refactorings', m['base'] + '.diff')], cwd=root, capture_output=True, text=True)
+            if pr.returncode != 0:
+                return m['id'], 'BROKEN-MUTANT', 'base %s does not apply: %s' % (m['base'], pr.stdout[-300:])
         edits = m.get('edits') or [dict(file=m['file'], find=m['find'], replace=m['replace'])]
         for e in edits:
             fp = os.path.join(root, e['file'])
